@@ -84,6 +84,20 @@ pub const DEVIATIONS: &[Dev] = &[
         item(f, "Ident").generics = vec!["T".into()];
         item(f, "Ident").kind = IKind::Newtype(Ty::Option(Box::new(Ty::Param("T".into()))));
     }),
+    // a date-typed member: TypeScript / Go / Python print it through helpers (reviver, time import, validators); the
+    // other three refuse the type, which is not a malformed file
+    ("datetime-members", |f, _| {
+        fields(f, "Person").push(Field::new("seen_at", Ty::user("OffsetDateTime")));
+        rect_fields(f).push(Field::new("stamp", Ty::Option(Box::new(Ty::user("OffsetDateTime")))));
+    }),
+    ("datetime-members-dashed-keys", |f, _| {
+        let mut a = Field::new("seen_at", Ty::user("OffsetDateTime"));
+        a.rename = Some("seen-at".into());
+        fields(f, "Person").push(a);
+        let mut b = Field::new("stamp", Ty::Option(Box::new(Ty::user("OffsetDateTime"))));
+        b.rename = Some("stamped-on".into());
+        rect_fields(f).push(b);
+    }),
     ("field-dashed-rename", |f, _| fields(f, "Person")[0].rename = Some("full-name".into())),
     ("variant-field-dashed-rename", |f, _| rect_fields(f)[0].rename = Some("the-width".into())),
     ("unit-variant-dashed-rename", |f, _| variants(f, "Color")[0].rename = Some("dark-red".into())),
